@@ -130,6 +130,18 @@ ClosestLevels(g, rn, rd) == {ClosestLevelWith(g, rn, rd, 0), ClosestLevelWith(g,
 \* get_affected_bbox_and_level: NoTiles if the rectangle does not intersect the grid bbox (touching counts as
 \* intersecting in bbox_intersects? no: strict) or the resolution is coarser than res[0]*max_shrink
 Intersects(a, b) == a[1] < b[3] /\ a[3] > b[1] /\ a[2] < b[4] /\ a[4] > b[2]
+\* the level for a request rectangle b answered with resolution rn/rd (the smaller of the two axis resolutions):
+\* NoLevel when the rectangle does not meet the grid or the resolution is coarser than max_shrink times the resolution
+\* of the FIRST level ("this factor only applies for the first level"); otherwise closest_level
+NoLevel == -1
+TooCoarse(g, rn, rd) == rn > Res(g, 0) * g.ms * rd
+ShrinkTie(g, rn, rd) == rn = Res(g, 0) * g.ms * rd
+BBoxLevelWith(g, b, rn, rd, tie) ==
+  IF ~Intersects(g.bbox, b) \/ TooCoarse(g, rn, rd) THEN NoLevel ELSE ClosestLevelWith(g, rn, rd, tie)
+BBoxLevels(g, b, rn, rd) == {BBoxLevelWith(g, b, rn, rd, 0), BBoxLevelWith(g, b, rn, rd, 1)}
+\* declaratively: a request that meets the grid and is not coarser than max_shrink times the first level gets a level
+BBoxLevelOK(g, b, rn, rd) ==
+  (Intersects(g.bbox, b) /\ rn <= Res(g, 0) * g.ms * rd) <=> (NoLevel \notin BBoxLevels(g, b, rn, rd))
 
 -----------------------------------------------------------------------------
 (* Declarative statement of C03                                            *)
